@@ -302,3 +302,217 @@ Theorem C01_source_dispatch : forall purity m variants l b cc lr br pure thr tok
         end in
     ((if String.eqb m "threshold" then thr else a), l', b').
 Proof. exact Proofs.FnCallDispatch.source_dispatch. Qed.
+
+(* ---- [loop ties e1] source tie of absolute_pure's loop (Gen/FnCallPureRow.v fn_pure_row: ONE ITERATION of
+   `for i, row in enumerate(cnarr):`, the value stored at absolutes[i], regenerated from the Python source on every run):
+   it IS the `absolutes` of call_row on the no-purity path, cn its half-to-even rounding, the log2 column untouched *)
+From CNV Require Gen.FnCallPureRow Proofs.FnCallPureRow.
+Theorem C01_source_pure_row : forall (exp2 : Q -> Q) i k purity hapx female build first chrom lo hi v,
+  use_purity purity = None ->
+  let a := Gen.FnCallPureRow.fn_pure_row exp2 i chrom v k hapx in
+  let c := call_row k purity hapx female build first (chrom, lo, hi, exp2 v) in
+  abs_of c == a /\ cn_of c = round_he a /\ ratio_of c = None.
+Proof. exact Proofs.FnCallPureRow.source_pure_call_row. Qed.
+
+(* ---- [loop ties e1] source tie of the purity-adjusted row (Gen/FnCallClonalRow.v): do_call's `.clip(lower=0)`
+   (fn_clonal_clip) of absolute_clonal (fn_absolute_clonal, WHOLE: the call of absolute_dataframe and the column handed
+   back) of absolute_dataframe (fn_dataframe_whole: the call of get_as_dframe_and_set_reference_and_expect_copies and the
+   function handed to `df.apply(..., axis=1)`), the callee's table read through its columns -- log2 the row's v, reference /
+   expect the r / x of ref_expect on the row's class, as functions of the arguments the call passes -- IS the `absolutes` of
+   call_row on the purity-adjusted path; cn is its half-to-even rounding, the rewritten ratio `rescaled` of it *)
+From CNV Require Gen.FnCallClonalRow Proofs.FnCallClonalRow.
+Theorem C01_source_clonal_row : forall (exp2 : Q -> Q) cn b k purity p hapx female build first chrom lo hi v,
+  use_purity purity = Some p ->
+  let cl := row_class build first chrom lo hi in
+  let a := Gen.FnCallClonalRow.fn_clonal_clip
+             (Gen.FnCallClonalRow.fn_absolute_clonal cn k purity hapx b female
+                (fun cn' k' purity' hapx' b' female' =>
+                   Gen.FnCallClonalRow.fn_dataframe_whole exp2 cn' k' purity' hapx' b' female'
+                     (fun _ _ _ _ _ => v)
+                     (fun _ k2 hapx2 _ female2 => fst (ref_expect k2 hapx2 female2 cl))
+                     (fun _ k2 hapx2 _ female2 => snd (ref_expect k2 hapx2 female2 cl)))) in
+  let o := call_row k purity hapx female build first (chrom, lo, hi, exp2 v) in
+  abs_of o == a /\ cn_of o = round_he a /\ ratio_of o = Some (rescaled a k (shifted hapx cl)).
+Proof. exact Proofs.FnCallClonalRow.source_clonal_call_row. Qed.
+
+(* as written: which argument absolute_clonal and absolute_dataframe pass where, which column feeds which argument *)
+Theorem C01_source_clonal_calls : forall (exp2 : Q -> Q) cn k purity hapx b female
+    (A : Z -> Z -> option Q -> bool -> Z -> bool -> Q) (L : Z -> Z -> bool -> Z -> bool -> Q) (R E : Z -> Z -> bool -> Z -> bool -> Z),
+  Gen.FnCallClonalRow.fn_absolute_clonal cn k purity hapx b female A = A cn k purity hapx b female /\
+  Gen.FnCallClonalRow.fn_dataframe_whole exp2 cn k purity hapx b female L R E
+  = Gen.FnCallClonalRow.fn_dataframe_row exp2 purity (L cn k hapx b female) (R cn k hapx b female) (E cn k hapx b female).
+Proof. exact Proofs.FnCallClonalRow.source_clonal_calls. Qed.
+
+(* the row function of df.apply alone, on both sides of `if purity and purity < 1.0` *)
+Theorem C01_source_dataframe_row : forall (exp2 : Q -> Q) purity v r x,
+  (forall p, use_purity purity = Some p ->
+     Gen.FnCallClonalRow.fn_dataframe_row exp2 purity v r x == abs_clonal (exp2 v) r x p) /\
+  (use_purity purity = None -> Gen.FnCallClonalRow.fn_dataframe_row exp2 purity v r x == abs_pure (exp2 v) r).
+Proof. exact Proofs.FnCallClonalRow.dataframe_row_both. Qed.
+
+(* ---- [loop ties e1] source tie of do_call's `if method != "none": outarr["cn"] = absolutes.round().astype("int") ...`
+   (Gen/FnCallFinish.v fn_finish, the WHOLE statement): for method "clonal" do_call_row is the generated statement applied
+   to the `absolutes` of the row *)
+From CNV Require Gen.FnCallFinish Proofs.FnCallFinish.
+Theorem C01_source_finish_clonal : forall k purity hapx female build ts variants with_baf first row,
+  let '(v1, _, abs1, ratio) := dc_purity_step MClonal k purity hapx female build first row in
+  let has_baf := with_baf || variants in
+  let b := dc_baf purity variants (d_baf row) in
+  do_call_row MClonal k purity hapx female build ts variants with_baf first row
+  = match abs1 with
+    | Some a => let '(cn, c1, c2) := Gen.FnCallFinish.fn_finish "clonal" a has_baf b in
+                Some (mk_dc_out ratio v1 (Some a) (Some cn) (if has_baf then b else None)
+                                (if has_baf then Some (c1, c2) else None))
+    | None => None
+    end.
+Proof. exact Proofs.FnCallFinish.source_finish_row_clonal. Qed.
+
+(* ---- [loop ties e1] source tie of the row masks of cnvlib/cnary.py read by the purity-adjusted path
+   (Gen/FnCallRowClass.v: chr_x_label, chr_y_label, parx_filter, chr_x_filter, pary_filter, chr_y_filter, WHOLE, per row,
+   regenerated from the Python source on every run).  The generated labels of a non-empty table without cached labels are
+   x_label / y_label of the first row's chromosome ... *)
+From CNV Require Gen.FnCallRowClass Proofs.FnCallRowClass.
+Theorem C01_source_labels : forall n first, (n <> 0)%Z ->
+  Gen.FnCallRowClass.fn_rc_chr_x_label false EmptyString n first = x_label first /\
+  Gen.FnCallRowClass.fn_rc_chr_y_label false EmptyString n (Gen.FnCallRowClass.fn_rc_chr_x_label false EmptyString n first)
+  = y_label first.
+Proof. exact Proofs.FnCallRowClass.source_labels. Qed.
+
+(* ... and the generated masks of a row (the PAR bounds they look up being those of the lower-cased build in
+   Gen.Params.PAR_TABLE) ARE its row_class: chr_x_filter selects exactly class ChrX, chr_y_filter ChrY, pary_filter ParY,
+   parx_filter ParX, and a row none of them selects is Auto *)
+Theorem C01_source_row_class : forall build first chrom lo hi,
+  build_ok build ->
+  let xl := x_label first in
+  let yl := y_label first in
+  let c := row_class build first chrom lo hi in
+  Proofs.FnCallRefExpect.is_x c = Proofs.FnCallRowClass.gen_x_mask build xl chrom lo hi /\
+  Proofs.FnCallRefExpect.is_y c = Proofs.FnCallRowClass.gen_y_mask build yl chrom lo hi /\
+  Proofs.FnCallRefExpect.is_pary c = Proofs.FnCallRowClass.gen_pary_mask build yl chrom lo hi /\
+  Proofs.FnCallRowClass.is_parx c = Proofs.FnCallRowClass.gen_parx_mask build xl chrom lo hi.
+Proof. exact Proofs.FnCallRowClass.source_row_class. Qed.
+
+Theorem C01_source_row_class_auto : forall build first chrom lo hi,
+  build_ok build ->
+  let xl := x_label first in
+  let yl := y_label first in
+  (row_class build first chrom lo hi = Auto <->
+   Proofs.FnCallRowClass.gen_x_mask build xl chrom lo hi = false /\
+   Proofs.FnCallRowClass.gen_y_mask build yl chrom lo hi = false /\
+   Proofs.FnCallRowClass.gen_pary_mask build yl chrom lo hi = false /\
+   Proofs.FnCallRowClass.gen_parx_mask build xl chrom lo hi = false).
+Proof. exact Proofs.FnCallRowClass.source_row_class_auto. Qed.
+
+(* the masks are the generated functions themselves, the looked-up bounds filled in (nothing hidden in the gen_* names) *)
+Example C01_ex_source_masks :
+  Proofs.FnCallRowClass.gen_x_mask (Some "GRCh38"%string) "chrX" "chrX" 20000 30000 = false /\
+  Proofs.FnCallRowClass.gen_parx_mask (Some "GRCh38"%string) "chrX" "chrX" 20000 30000 = true /\
+  Proofs.FnCallRowClass.gen_x_mask (Some "GRCh38"%string) "chrX" "chrX" 3000000 3000100 = true /\
+  Proofs.FnCallRowClass.gen_x_mask None "chrX" "chrX" 20000 30000 = true /\
+  Proofs.FnCallRowClass.gen_pary_mask (Some "grch37"%string) "Y" "Y" 10000 20000 = true /\
+  Proofs.FnCallRowClass.gen_y_mask (Some "grch37"%string) "Y" "Y" 10000 20000 = false.
+Proof. vm_compute. repeat split; reflexivity. Qed.
+
+(* composed: get_as_dframe_and_set_reference_and_expect_copies' generated column code (C01_source_ref_expect) fed with the
+   generated masks of the row gives the (reference, expect) copies of the row's class ... *)
+Theorem C01_source_row_copies : forall k hapx female build first chrom lo hi,
+  build_ok build ->
+  Gen.FnCallRefExpect.fn_ref_expect k k hapx female
+    (Proofs.FnCallRowClass.gen_x_mask build (x_label first) chrom lo hi)
+    (Proofs.FnCallRowClass.gen_y_mask build (y_label first) chrom lo hi)
+    (match build with Some _ => true | None => false end)
+    (Proofs.FnCallRowClass.gen_pary_mask build (y_label first) chrom lo hi)
+  = ref_expect k hapx female (row_class build first chrom lo hi).
+Proof. exact Proofs.FnCallRowClass.source_row_copies. Qed.
+
+(* ... and log2_ratios' generated body (C01_source_log2_ratios) fed with them is `rescaled` with the shift of that class *)
+Theorem C01_source_row_log2 : forall (exp2 log2 : Q -> Q),
+  (forall y, 0 < y -> exp2 (log2 y) == y) ->
+  (forall v, exp2 (v + 1) == 2 * exp2 v) ->
+  forall a k hapx build first chrom lo hi,
+    build_ok build ->
+    exp2 (fn_log2_ratios log2 a k hapx min_abs_val false
+            (Proofs.FnCallRowClass.gen_x_mask build (x_label first) chrom lo hi)
+            (Proofs.FnCallRowClass.gen_y_mask build (y_label first) chrom lo hi))
+    == rescaled a k (shifted hapx (row_class build first chrom lo hi)).
+Proof. exact Proofs.FnCallRowClass.source_row_log2. Qed.
+
+(* ---- [loop ties e1] source tie of the argument checks in front of the calling code.  do_call's first statement
+   `if method not in ("threshold", "clonal", "none"): raise ValueError` (Gen/FnCallGuards.v fn_method_rejected: its test,
+   regenerated from the Python source on every run): the accepted methods are exactly the three values of call_method
+   under the names the entry point decodes and the dispatch compares with ... *)
+From CNV Require Gen.FnCallGuards Proofs.FnCallGuards Entries.C02.
+Theorem C01_source_method_guard : forall m : string,
+  (Gen.FnCallGuards.fn_method_rejected m = false <-> exists cm, m = Proofs.FnCallGuards.method_name cm) /\
+  (Gen.FnCallGuards.fn_method_rejected m = true <-> Entries.C02.method_of m = None) /\
+  (forall cm, Entries.C02.method_of (Proofs.FnCallGuards.method_name cm) = Some cm).
+Proof. exact Proofs.FnCallGuards.source_method_guard. Qed.
+
+(* ... and the `call` command's `if args.purity and not 0.0 < args.purity <= 1.0: raise RuntimeError` (cnvlib/commands.py
+   _cmd_call; Gen/FnCallCmdGuards.v fn_purity_rejected): the purities let through are exactly `valid_purity` -- the premise
+   of C01_cn_exact -- plus 0, which is read as "no purity"; the sample's sex is looked up (fn_cmd_sample_sex) exactly on
+   the purity-adjusted path *)
+From CNV Require Gen.FnCallCmdGuards Proofs.FnCallCmdGuards.
+Theorem C01_source_purity_guard : forall purity : option Q,
+  Gen.FnCallCmdGuards.fn_purity_rejected purity = false <->
+  (valid_purity purity \/ exists p, purity = Some p /\ p == 0).
+Proof. exact Proofs.FnCallCmdGuards.source_purity_guard. Qed.
+
+Theorem C01_source_cmd_sample_sex : forall (purity : option Q) (verified : option bool),
+  Gen.FnCallCmdGuards.fn_cmd_sample_sex purity verified
+  = match use_purity purity with Some _ => verified | None => None end.
+Proof. exact Proofs.FnCallCmdGuards.source_cmd_sample_sex. Qed.
+
+(* ---- [loop ties e1] do_call's row composed from the generated pieces: on a row with a finite log2, for the methods
+   "threshold" and "clonal", do_call_row IS the generated dispatch (fn_dispatch) followed by the generated cn / allelic
+   statement (fn_finish), the results of the called functions supplied by the model functions tied to them *)
+From CNV Require Proofs.FnCallDoCallRow.
+Theorem C01_source_do_call_row : forall m k purity hapx female build ts variants with_baf first row v toks,
+  m <> MNone -> d_log2 row = Some v ->
+  let cl := row_class build first (d_chrom row) (d_lo row) (d_hi row) in
+  let pp := match use_purity purity with Some p => p | None => 1 end in
+  let op := call_row_purity k pp hapx female cl (d_e row) in
+  let '(v1, e1) := dc_seen purity row in
+  let '(a, l', b') :=
+     Gen.FnCallDispatch.fn_dispatch purity (Proofs.FnCallGuards.method_name m) variants (d_log2 row) (d_baf row)
+       (abs_of op) (Some (d_v2 row)) (rescale_baf pp (d_baf row))
+       (abs_of (call_row_pure k hapx (d_chrom row) (d_e row)))
+       (inject_Z (thr_cn v1 e1 ts k (ref_pure (d_chrom row) k hapx))) toks in
+  let has_baf := with_baf || variants in
+  let '(cn, c1, c2) := Gen.FnCallFinish.fn_finish (Proofs.FnCallGuards.method_name m) a has_baf b' in
+  do_call_row m k purity hapx female build ts variants with_baf first row
+  = Some (mk_dc_out (match use_purity purity with Some _ => ratio_of op | None => None end)
+                    l' (Some a) (Some cn) (if has_baf then b' else None) (if has_baf then Some (c1, c2) else None)).
+Proof. exact Proofs.FnCallDoCallRow.source_do_call_row. Qed.
+
+(* ---- [loop ties e1] source tie of absolute_expect / absolute_reference (Gen/FnCallExpectRef.v, WHOLE functions,
+   regenerated from the Python source on every run; the two columns of get_as_dframe_and_set_reference_and_expect_copies'
+   table are function-typed inputs).  As written: absolute_expect fixes is_haploid_x_reference = True and hands back the
+   `expect` column, absolute_reference fixes is_sample_female = True and hands back the `reference` column ... *)
+From CNV Require Gen.FnCallExpectRef Proofs.FnCallExpectRef.
+Theorem C01_source_expect_ref_calls : forall cn k b flag (R E : Z -> Z -> bool -> Z -> bool -> Z),
+  Gen.FnCallExpectRef.fn_absolute_expect cn k b flag R E = E cn k true b flag /\
+  Gen.FnCallExpectRef.fn_absolute_reference cn k b flag R E = R cn k flag b true.
+Proof. exact Proofs.FnCallExpectRef.source_expect_ref_calls. Qed.
+
+(* ... so with the callee's generated column code in place of the columns, absolute_expect IS the x and absolute_reference
+   the r of ref_expect on every class of row, whatever the reference sex resp. the sample sex (the fixed flag is immaterial) *)
+Theorem C01_source_absolute_expect : forall cn k b female hapx has_build c,
+  (c = ParY -> has_build = true) ->
+  Gen.FnCallExpectRef.fn_absolute_expect cn k b female
+    (Proofs.FnCallExpectRef.gen_reference_col (Proofs.FnCallRefExpect.is_x c) (Proofs.FnCallRefExpect.is_y c) has_build
+                                              (Proofs.FnCallRefExpect.is_pary c))
+    (Proofs.FnCallExpectRef.gen_expect_col (Proofs.FnCallRefExpect.is_x c) (Proofs.FnCallRefExpect.is_y c) has_build
+                                           (Proofs.FnCallRefExpect.is_pary c))
+  = snd (ref_expect k hapx female c).
+Proof. exact Proofs.FnCallExpectRef.source_absolute_expect. Qed.
+
+Theorem C01_source_absolute_reference : forall cn k b hapx female has_build c,
+  (c = ParY -> has_build = true) ->
+  Gen.FnCallExpectRef.fn_absolute_reference cn k b hapx
+    (Proofs.FnCallExpectRef.gen_reference_col (Proofs.FnCallRefExpect.is_x c) (Proofs.FnCallRefExpect.is_y c) has_build
+                                              (Proofs.FnCallRefExpect.is_pary c))
+    (Proofs.FnCallExpectRef.gen_expect_col (Proofs.FnCallRefExpect.is_x c) (Proofs.FnCallRefExpect.is_y c) has_build
+                                           (Proofs.FnCallRefExpect.is_pary c))
+  = fst (ref_expect k hapx female c).
+Proof. exact Proofs.FnCallExpectRef.source_absolute_reference. Qed.
